@@ -962,3 +962,7 @@ def r8(cx):
                          'below the target context: a temporary assignment prefixed to an outer function call (`x=outer foo`) is pulled '
                          'into a nested function that declares `local x` and destroyed at its return - the still running outer function '
                          'then sees x unset', loc=body.loc(t))
+
+
+# --- explanation addendum (generated catalogue in DESIGN.md reads RS.explanation)
+RS.explanation += ' Added later: ${x=w}, $((x=..)), for, read, getopts and cd assign with Scope::Global (R7); get_or_new never takes over an entry from below the target context (R8).'
